@@ -63,6 +63,9 @@ def observe(case):
     return W.observe(case)
 
 
+to_model = W.to_model
+
+
 def may_be_silent(case):
     c = W.parse_case(case)
     toks = [c["ctor"]] + list(c["prog"].values())
